@@ -146,7 +146,14 @@ func VerifC18Document() {
 		c18Ref(resp, "tree", node, 2, flag("resp.tree.repeated"))
 	}
 
-	svc := verif.NewService("acme.v1", "DocService", &descriptorpb.ServiceOptions{})
+	// headers: none, service-level only, or service-level plus a method-level declaration that
+	// re-declares the same name (an override) or another name
+	so := &descriptorpb.ServiceOptions{}
+	headerMode := pick("headers", 4)
+	if headerMode > 0 {
+		verif.SetExt(so, http.E_ServiceHeaders, &http.ServiceHeaders{RequiredHeaders: []*http.Header{{Name: "X-Tenant", Type: "string", Required: true}}})
+	}
+	svc := verif.NewService("acme.v1", "DocService", so)
 	verb1 := http.HttpMethod(1 + pick("verb1", 5))
 	pathShape := pick("pathShape", 3)
 	path1, vars1 := "/docs", []string{}
@@ -157,6 +164,12 @@ func VerifC18Document() {
 		path1, vars1 = "/docs/{id}/rev/{rev}", []string{"id", "rev"}
 	}
 	mo1 := &descriptorpb.MethodOptions{}
+	switch headerMode {
+	case 2:
+		verif.SetExt(mo1, http.E_MethodHeaders, &http.MethodHeaders{RequiredHeaders: []*http.Header{{Name: "X-Tenant", Type: "string", Required: false}}})
+	case 3:
+		verif.SetExt(mo1, http.E_MethodHeaders, &http.MethodHeaders{RequiredHeaders: []*http.Header{{Name: "X-Trace", Type: "string", Required: true}}})
+	}
 	verif.SetExt(mo1, http.E_Config, &http.HttpConfig{Path: path1, Method: verb1})
 	verif.NewMethod(svc, "GetDoc", "GetDoc", req, resp, mo1)
 	mo2 := &descriptorpb.MethodOptions{}
@@ -187,6 +200,13 @@ func VerifC18Document() {
 			tmpl := pair.Key()
 			nPath := 0
 			for _, p := range op.Parameters {
+				dupAny := 0
+				for _, q := range op.Parameters {
+					if q.In == p.In && q.Name == p.Name {
+						dupAny++
+					}
+				}
+				verif.Assert("C18/parameter-name-unique-per-location", dupAny == 1)
 				if p.In != "path" {
 					continue
 				}
